@@ -31,6 +31,14 @@ LEVEL.update({
  "C17":("periodic inputs: the size of the tree reachable from the reader's root after each delivered-and-released record must not exceed the size after the first; XML with the real decoder, passing and filtered-out records, with and without separators; the growth with character data between records is the recorded finding F6",
         "retention measured on the node tree only"),
 })
+LEVEL.update({
+ "C02":("the real schema validation (validateDecl: kinds, templates, children, parents) and ParseNode with the real xpath engine are executed symbolically over a schema family with symbolic flags and records with symbolic texts, and compared with an independent reference evaluator written from the documents (arrays in declaration order, template inlining, anchoring rules, trim/cast/omit)",
+        "computeDeclHash replaced by a canonical rendering (equal content ⇔ equal hash); kept empty values: null ≡ empty container; undocumented combinations excluded (listed in evidence)"),
+ "C11":("differential: the same real xpath engine over idr's navigator and over the reference DOM binding (xmlquery), both executed symbolically on the same bytes, 30 expressions over all axes / positional predicates / functions; results compared by position, name, kind and string value",
+        "text()/node() tests on character data excluded (reference v1.3.1 deviates itself); expressions limited to the listed ones"),
+ "C13":("two-run non-interference: ParseNode with the per-record result cache on vs. off on the same symbolic record, over a schema family built to share declaration text across positions; node pool on/off equivalence is part of the C12 create step; xpath-expression cache: real LRU code executed as part of every harness",
+        "declaration hash replaced by its contract; goja caches are C20's"),
+})
 REASON_NOT_YET="check under construction in this session (see DESIGN.md §6); not claimed yet"
 m={
  "version":1,
